@@ -532,7 +532,121 @@ def _const_arg(body, nid, idx):
     return None
 
 
+def check_worker(ctx):
+    """what the flusher may skip, and how the worker is asked to flush"""
+    inst = "C02.ack/selection"
+    b = ctx.fn("write_buffer::process_write_batch", inst)
+    if b is not None:
+        prep = ctx.sites(b, R.call("write_buffer::prepare_record_data"), inst, exact=1)
+        # an Insert/Update entry is written iff it is not on disk yet (sector == 0) and is live (refcount > 0) or already reserved
+        def on_disk(e):
+            return e.k == "bin" and e.extra == "Eq" and e.has_field("Record", "sector") and e.has_const(val=0) and e.has_call("Atomic::load")
+        def live(e):
+            return e.k == "bin" and e.extra == "Lt" and e.a[0].k == "const" and (e.a[0].extra or {}).get("val") == 0 and e.a[1].has_field("Record", "refcount")
+        def reserved(e):
+            return e.k == "call" and path_matches(e.extra, "write_buffer::reserved_sector")
+        ctx.check(len(A.pred_switches(b, on_disk)) >= 1 and len(A.pred_switches(b, live)) == 1 and len(A.pred_switches(b, reserved)) >= 1, inst, "PIN", b.path,
+                  "the flusher's skip test is `sector == 0 && (refcount > 0 || reserved)`", None)
+        R.guard(ctx, inst, b, prep, A.pred_edges(b, on_disk, "true"), "a record is (re)written only while it has no durable location")
+        # a live, unwritten record is never skipped: from `sector == 0` and `refcount > 0` every path reaches prepare_record_data
+        for (sw, l) in A.pred_edges(b, live, "true"):
+            r, ps = A.reach(b, edge_targets_(b, sw, l), blocked_nodes=set(prep))
+            bad = [x for x in R.call("Iterator::next")(b) + b.return_nodes() if x in r]
+            ctx.check(not bad, inst, "FOLLOW", b.path, "a live record without a durable location is always prepared for writing", b.where(sw))
+        # skipping is only possible for records that are durable already, or dead (refcount == 0) and never reserved
+        for (sw, l) in A.pred_edges(b, live, "false"):
+            r, ps = A.reach(b, edge_targets_(b, sw, l), blocked_nodes=set(prep), blocked_edges=set(A.pred_edges(b, reserved, "None")))
+            bad = [x for x in R.call("Iterator::next")(b) if x in r]
+            ctx.check(not bad, inst, "GUARD", b.path, "a superseded record is skipped only if it holds no reservation", b.where(sw))
+        # every prepared record is queued with its entry; a preparation failure keeps the entry for retry
+        pw_push = [n for n in b.calls() if R.call_matches(n.ev, "Vec::push") and "prepared_writes" in _names(b, R.recv_expr(b, n))]
+        re_push = [n for n in b.calls() if R.call_matches(n.ev, "Vec::push") and "retry_entries" in _names(b, R.recv_expr(b, n))]
+        ctx.check(len(pw_push) == 1 and len(re_push) == 1, inst, "anchor", b.path, "one push of a prepared write and one retry push for a failed preparation", None)
+        for p in prep:
+            for (sw, l) in R.guard_edges_for_call(b, [p], "Ok"):
+                r, ps = A.reach(b, edge_targets_(b, sw, l), blocked_nodes={x.id for x in pw_push})
+                ctx.check(not any(x in r for x in R.call("Iterator::next")(b)), inst, "FOLLOW", b.path, "a prepared record is always queued for the batch", b.where(sw))
+            for (sw, l) in R.guard_edges_for_call(b, [p], "Err"):
+                r, ps = A.reach(b, edge_targets_(b, sw, l), blocked_nodes={x.id for x in re_push})
+                ctx.check(not any(x in r for x in R.call("Iterator::next")(b)), inst, "FOLLOW", b.path, "an entry whose preparation failed is kept for retry", b.where(sw))
+    inst = "C02.ack/drain"
+    b = ctx.fn("ShardedWriteBuffer::drain_entries", inst)
+    if b is not None:
+        dr = ctx.sites(b, R.call("VecDeque::drain"), inst, exact=1)
+        for d in dr:
+            a = R.arg_expr(b, b.nodes[d], 1)
+            ctx.check((a.k == "agg" and (a.extra or "").endswith("RangeFull")) or "RangeFull" in (b.nodes[d].ev.get("arg_tys", ["", ""])[1]), inst, "PIN", b.path,
+                      "a drained shard hands over all of its entries (drain(..))", b.where(d), {"arg": a.show()})
+        st = ctx.sites(b, R.field_write("ShardedWriteBuffer", "count", ops=["store"]), inst, exact=1)
+        R.dom(ctx, inst, b, dr, st, "the shard is reported empty only after it was drained", a_desc="drain(..)")
+        lk = ctx.sites(b, R.call("Mutex::lock"), inst, exact=1)
+        R.dom(ctx, inst, b, lk, dr, "draining happens under the shard lock", a_desc="buffer.lock()")
+    b = ctx.fn("ShardedWriteBuffer::add_entries", inst)
+    if b is not None:
+        ex = ctx.sites(b, R.call("Extend::extend", "VecDeque::extend"), inst, exact=1)
+        ca = ctx.sites(b, R.field_write("ShardedWriteBuffer", "count", ops=["fetch_add"]), inst, exact=1)
+        R.follow(ctx, inst, b, ex, ca, "queued entries are counted (the periodic flusher looks at the count)", b_desc="count.fetch_add")
+    b = ctx.fn("ShardedWriteBuffer::requeue_entries", inst)
+    if b is not None:
+        pf = ctx.sites(b, R.call("VecDeque::push_front"), inst, exact=1)
+        ca = ctx.sites(b, R.field_write("ShardedWriteBuffer", "count", ops=["fetch_add"]), inst, exact=1)
+        from rules.common import whole_collection_loop
+        for p in pf:
+            ok, nm, det = whole_collection_loop(b, p.id if hasattr(p, "id") else p, 1)
+            ctx.check(ok or det.get("restricted_by") == ["core::iter::Iterator::rev"] or all("rev" in x for x in det.get("restricted_by", ["x"])), inst, "FOLLOW", b.path,
+                      "every returned entry is put back at the front of its shard", b.where(p), det)
+        R.dom(ctx, inst, b, pf, ca, "requeued entries are counted again", a_desc="push_front") if False else None
+        r, _ = A.reach(b, [b.entry], blocked_nodes=set(ca), blocked_edges=set(A.pred_edges(b, lambda e: e.k == "call" and path_matches(e.extra, "Vec::is_empty"), "true")))
+        ctx.check(not any(x in r for x in b.return_nodes()), inst, "FOLLOW", b.path, "[entries non-empty] the shard's count is raised again", None)
+    inst = "C02.ack/worker"
+    b = ctx.fn("write_buffer::write_buffer_worker", inst)
+    if b is not None:
+        fl = ctx.sites(b, R.call("write_buffer::flush_worker_shards"), inst, exact=2)
+        for f in fl:
+            a = b.nodes[f].ev["args"][2]
+            if a.get("k") == "const":
+                ctx.check(a.get("val") == 1, inst, "PIN", b.path, "the final drain also flushes retirements", b.where(f))
+            else:
+                e = A.tracer(b).operand(a)
+                ctx.check(e.k == "un" and e.extra == "Not" and e.a[0].has_field("FlushRequest", "defer_retirements"), inst, "PROVENANCE", b.path,
+                          "a requested flush handles retirements unless the requester deferred them", b.where(f), {"expr": e.show()})
+    inst = "C02.ack/flush_pending_deletions"
+    b = ctx.fn("write_buffer::flush_pending_deletions", inst)
+    if b is not None:
+        # the bool returned is `!retries.is_empty()` (something is left to do), computed after process_deletions
+        pd = ctx.sites(b, R.call("write_buffer::process_deletions"), inst, exact=1)
+        ie = [n for n in b.calls() if R.call_matches(n.ev, "Vec::is_empty") and "retries" in _names(b, R.recv_expr(b, n))]
+        ctx.check(len(ie) == 1, inst, "anchor", b.path, "retries.is_empty() is consulted once", None)
+        if ie and pd:
+            R.dom(ctx, inst, b, pd, [ie[0].id], "pending work is measured after the deletions were processed", a_desc="process_deletions")
+        mp = ctx.sites(b, R.call("Result::map"), inst, exact=1)
+        cl = [c for c in ctx.prog.closures_of(b)]
+        ok = False
+        for c in cl:
+            if len(c.defs.get(0, [])) == 1:
+                v = A.tracer(c).node_value(c.defs[0][0])
+                from rules.common import upvar_names
+                if "has_retries" in upvar_names(c, v) or v.k == "field":
+                    ok = True
+        ctx.check(ok, inst, "PROVENANCE", b.path, "Ok carries `has_retries` so the caller keeps flushing while work is left", None)
+        # empty queue => Ok(false) without touching the device
+        oks = A.ok_nodes(b)
+        early = [o for o in oks if b.nodes[o].ev["ops"][0].get("val") == 0]
+        plocks = {n.id for n in b.calls() if R.call_matches(n.ev, "Mutex::lock") and R.recv_expr(b, n).has_field("RetirementQueue", "pending")}
+        def pend_empty(e):
+            return e.k == "call" and path_matches(e.extra, "Vec::is_empty") and (e.has_field("RetirementQueue", "pending") or
+                                                                                  any(("call", x) in A.origins(b, e) for x in plocks))
+        R.guard(ctx, inst, b, early, A.pred_edges(b, pend_empty, "true"), "`nothing left` is reported only when the retirement queue is empty")
+        fl = ctx.sites(b, R.call("Mutex::lock").filter(lambda bb, n: R.recv_expr(bb, n).has_field("RetirementQueue", "flush"), "flush lock"), inst, exact=1)
+        R.dom(ctx, inst, b, fl, pd, "retirement rounds are serialised by the flush lock", a_desc="retirement_queue.flush.lock()")
+
+
+def edge_targets_(body, sw, label):
+    return [s for (s, l) in body.nodes[sw].succ if l == label]
+
+
 def check(ctx):
+    check_worker(ctx)
     check_sync(ctx)
     check_order(ctx)
     check_ack(ctx)
